@@ -98,7 +98,11 @@ impl Prop for C08 {
                 plan.io_once = rng.pct(30);
             }
             // 12% of deliveries: the caller has read 1-3 events itself (skipped prolog / envelope element)
-            let cfg = if rng.pct(12) { (rng.range(1, 3) as u16) << crate::session::CFG_PRECONSUME_SHIFT } else { 0 };
+            let mut cfg = if rng.pct(12) { (rng.range(1, 3) as u16) << crate::session::CFG_PRECONSUME_SHIFT } else { 0 };
+            if rng.pct(10) {
+                // the caller repeats a failed call on the same reader (what it then reads is the rest of the stream)
+                cfg |= crate::session::CFG_CARRY_ON;
+            }
             steps.push(Step { input: Input::Raw(bytes), plan, cfg });
         }
         let mut replicas = vec![Replica { role: "client".into(), entropy: rng.u128(), steps, warmup: vec![] }];
@@ -117,10 +121,10 @@ impl Prop for C08 {
                     Input::Raw(_) => return Ok(skip("depth_over_200")),
                     _ => return Ok(skip("not_a_byte_case")),
                 }
-                if st.cfg & !crate::session::CFG_PRECONSUME_MASK != 0 {
+                if st.cfg & !(crate::session::CFG_PRECONSUME_MASK | crate::session::CFG_CARRY_ON) != 0 {
                     return Ok(skip("non_default_reader_config"));
                 }
-                if st.cfg != 0 {
+                if st.cfg & crate::session::CFG_PRECONSUME_MASK != 0 {
                     bump(ctr, "fault.caller_preconsumed_events");
                 }
             }
